@@ -25,6 +25,10 @@ D14A = ("D14a signatures [bad, good] by one key: Metablock.verify_signature chec
 
 
 def opt_sets():
+    return [dict(o, format_neutral=True) for o in _opt_sets()]
+
+
+def _opt_sets():
     return [
         {"deviate": False, "p_sub": 0.35, "max_depth": 2, "vary_keys": False},                 # honest: all assignments accept
         {"p_sub": 0.3, "max_depth": 2},                                                        # full deviation catalogue
